@@ -147,11 +147,14 @@ class CtlLock:
             raise Abort()
         arrived = f"ld:{self.name}"
         while True:
+            th.wait_lock = self
             th.gate(("adv",), arrived)
+            th.wait_lock = None
             arrived = None
             if self.owner is None or self.owner == th.tid:
                 self.owner = th.tid
                 self.count += 1
+                th.stack.append(self)
                 th.event = f"aq:{self.name}:{self.count}"
                 return self
             if th.sch.depth[th.tid] > 0:
@@ -169,7 +172,17 @@ class CtlLock:
         if th.pending_pass:
             th.pending_pass = False
             arrived = f"pass:{lock_name(getattr(th.procobj, '_tty_lock', None))}"
+        if not th.in_start and len(th.stack) % 2 == 0:
+            # leaving the body of a section: the model's `ret` step (the probe body has taken it
+            # already; real code arrives here directly)
+            if th.ret_consumed:
+                th.ret_consumed = False
+            else:
+                th.gate(("adv",), arrived)
+                arrived = "ret"
         th.gate(("adv",), arrived)
+        if th.stack and th.stack[-1] is self:
+            th.stack.pop()
         if self.owner != th.tid:
             th.event = "x-release-unowned"
             raise RuntimeError("cannot release un-acquired lock")
@@ -232,8 +245,84 @@ def new_lock(pid):
     return lk
 
 
+class FakeOS:
+    def __init__(self, sch, fd):
+        self._sch, self._fd = sch, fd
+
+    def __getattr__(self, n):
+        return getattr(os, n)
+
+    def write(self, fd, data):
+        if fd != self._fd:
+            return os.write(fd, data)
+        th = tl.th
+        th.gate(("wr",))
+        q = self._sch.term_write(th, bytes(data))
+        th.event = f"wr:{q}"
+        return len(data)
+
+    def read(self, fd, n):
+        if fd != self._fd:
+            return os.read(fd, n)
+        repl = self._sch.repl
+        if not repl:
+            return b""
+        c = repl[0]
+        out = c.data[c.pos:c.pos + n]
+        c.pos += len(out)
+        if c.pos >= len(c.data):
+            repl.pop(0)
+        return out
+
+
+class FakeTermios:
+    def __init__(self, sch):
+        self._sch = sch
+        import termios as _t
+        self._t = _t
+        self.error = _t.error
+
+    def __getattr__(self, n):
+        return getattr(self._t, n)
+
+    def tcgetattr(self, fd):
+        return [0, 0, 0, 0xFFFF, 0, 0, [0] * 32]
+
+    def tcsetattr(self, fd, when, attr):
+        if when == self._t.TCSAFLUSH:
+            self._sch.flush_input(tl.th)
+
+    def tcdrain(self, fd):
+        pass
+
+
+class FakeFcntl:
+    def ioctl(self, fd, req, buf, *a):
+        return 0  # pixel size fields stay 0: get_cell_size() takes the query path
+
+
+def make_select(sch):
+    def fake_select(r, w, x, timeout=None):
+        """ready when a reply part is in the input queue; the thread parks before it starts on a
+        new part (one model `rd` step per part) and while it has to wait for one"""
+        th = tl.th
+        if th.aborting:
+            raise Abort()
+        while True:
+            if sch.repl and sch.repl[0].pos > 0:
+                return (list(r), [], [])       # in the middle of a part
+            if not sch.repl and timeout == 0 and not sch.pend:
+                return ([], [], [])            # nothing more will come: the drain is complete
+            th.gate(("rd",))
+            if sch.repl and sch.repl[0].pos == 0:
+                th.event = sch.term_take(th, sch.repl[0])
+                return (list(r), [], [])
+            th.event = "x"
+    return fake_select
+
+
 class VProc:
-    def __init__(self, sch, pid, procobj=None, flavour="run", parent=None):
+    def __init__(self, sch, pid, procobj=None, flavour="run", parent=None, fake_tty=False):
         self.pid = pid
         if procobj is not None and flavour == "import":
             mod = raw_copy(current=procobj)
@@ -261,6 +350,23 @@ class VProc:
                 mod._process_run_wrapper(procobj)
         self.probe = mod.lock_tty(probe_body)
         TRACED[self.probe.__code__] = ("sync", load_offsets(self.probe.__code__))
+        self.real_fns = {}
+        if fake_tty:
+            mod.os = FakeOS(sch, mod._tty_fd)
+            mod.termios = FakeTermios(sch)
+            mod.select = make_select(sch)
+            mod.fcntl = FakeFcntl()
+            mod.monotonic = lambda: 0.0
+            mod._queries_enabled = True
+            for short, name in FN_NAMES.items():
+                f = getattr(mod, name)
+                # below the `@cached` / `@unix_tty_only` wrappers (their private locks are not C14's)
+                while hasattr(f, "__wrapped__") and "_tty_lock" not in f.__code__.co_names \
+                        and "query_terminal" not in f.__code__.co_names:
+                    f = f.__wrapped__
+                self.real_fns[short] = f
+                if "_tty_lock" in f.__code__.co_names:
+                    TRACED[f.__code__] = ("sync", load_offsets(f.__code__))
         TRACED[mod._process_start_wrapper.__code__] = ("start", load_offsets(mod._process_start_wrapper.__code__))
 
 
@@ -281,6 +387,7 @@ def fake_start(procobj, *a, **k):
             continue
         sch.vprocs[c] = VProc(sch, c, procobj, sch.flav.get(str(c), "run"), sch.vprocs[th.pid])
         th.event = f"fk:{c}:{lock_name(getattr(procobj, '_tty_lock', None))}"
+        th.in_start = False
         return
 
 
@@ -344,12 +451,22 @@ class Th(threading.Thread):
         self.event = None
         self.aborting = False
         self.pending_pass = False
+        self.call_consumed = False   # the `call` step of the next activation was already commanded
+        self.ret_consumed = False    # the `ret` step of the current activation was already commanded
+        self.in_start = False
+        self.stack = []              # lock objects acquired and not yet released, in order
+        self.accepts = ()
+        self.wait_lock = None
+        self.wait_data = False
+        self.prog = []               # fsched: names of the real functions still to call
+        self.results = []
         self.procobj = None
         self.error = None
 
     def gate(self, accept, arrived=None):
         if arrived is not None:
             self.event = arrived
+        self.accepts = accept
         while True:
             if self.aborting:
                 raise Abort()
@@ -371,9 +488,18 @@ class Th(threading.Thread):
 
     def _at_load(self, kind, k):
         if kind == "sync":
-            self.gate(("adv",), "call" if k == 1 else None)
+            if k == 1:
+                if self.call_consumed:
+                    self.call_consumed = False
+                else:
+                    # a nested call made by the real code itself: the model's `call` step
+                    self.gate(("call",))
+                self.gate(("adv",), "call")
+            else:
+                self.gate(("adv",))
         else:
             if k == 1:
+                self.in_start = True
                 self.gate(("adv",), "start")
             elif k == 2:
                 self.gate(("adv",))
@@ -382,6 +508,8 @@ class Th(threading.Thread):
                 self.pending_pass = True
 
     def body(self):
+        """body of the synchronized probe: write a query / read a reply part / nested call / return,
+        as commanded; the outermost activation does not return while a reply part is outstanding"""
         sch = self.sch
         others = [t for t, d in sch.depth.items() if d > 0 and t != self.tid]
         if others:
@@ -389,36 +517,29 @@ class Th(threading.Thread):
                             f"function while thread(s) {others} are inside one")
         sch.depth[self.tid] += 1
         try:
-            state, q = "W", None
             while True:
-                if state == "W":
-                    cmd = self.gate(("adv", "noq", "call"))
-                    if cmd[0] == "adv":
-                        q = sch.nextq
-                        sch.nextq += 1
-                        sch.pend.append(q)
-                        self.event = f"wr:{q}"
-                        state = "R"
-                    elif cmd[0] == "noq":
-                        self.event = "noq"
-                        state = "D"
-                    else:
-                        sch.vprocs[self.pid].probe()
-                elif state == "R":
-                    self.gate(("adv",))
-                    if not sch.repl:
+                cmd = self.gate(("adv", "wr", "rd", "call"))
+                if cmd[0] == "adv":
+                    if sch.depth[self.tid] == 1 and self.tid in sch.outq:
                         self.event = "x"
                         continue
-                    r = sch.repl.pop(0)
-                    if r != q:
-                        sch.viol.append(f"reply: thread {self.tid} asked query {q} and read the reply to query {r}")
-                    self.event = f"rd:{q}:{r}"
-                    state = "D"
+                    self.event = "ret"
+                    self.ret_consumed = True
+                    return
+                if cmd[0] == "wr":
+                    if self.tid in sch.outq:
+                        self.event = "x"
+                        continue
+                    q = sch.term_write(self, None)
+                    self.event = f"wr:{q}"
+                elif cmd[0] == "rd":
+                    if self.tid not in sch.outq or not sch.repl:
+                        self.event = "x"
+                        continue
+                    c = sch.repl.pop(0)
+                    self.event = sch.term_take(self, c)
                 else:
-                    cmd = self.gate(("adv", "call"))
-                    if cmd[0] == "adv":
-                        self.event = "ret"
-                        return
+                    self.call_consumed = True
                     sch.vprocs[self.pid].probe()
         finally:
             sch.depth[self.tid] -= 1
@@ -435,7 +556,26 @@ class Th(threading.Thread):
                     cmd = self.gate(("call", "start"))
                     vp = self.sch.vprocs.get(self.pid)
                 if cmd[0] == "call":
-                    vp.probe()
+                    self.call_consumed = True
+                    if self.sch.real:
+                        if not self.prog:
+                            self.call_consumed = False
+                            self.event = "x"
+                            continue
+                        name = self.prog.pop(0)
+                        if name == "cs":
+                            # always take the query path (as after a terminal resize); the cache hit
+                            # of get_cell_size() touches neither the terminal nor the terminal lock
+                            vp.mod._cell_size_cache[:] = [0, 0, 0, 0]
+                        res = vp.real_fns[name]()
+                        self.results.append((name, repr(res)))
+                        exp = self.sch.expected.get(name)
+                        if exp is not None and repr(res) != exp:
+                            self.sch.viol.append(
+                                f"result: thread {self.tid} called {FN_NAMES[name]}() and got {res!r}; with the "
+                                f"terminal's replies delivered to their own callers it returns {exp}")
+                    else:
+                        vp.probe()
                 else:
                     po = multiprocessing.Process(target=noop)
                     po._child_id = cmd[1]
@@ -451,66 +591,249 @@ class Th(threading.Thread):
             sys.settrace(None)
 
 
+class Chunk:
+    """one part of the terminal's reply to a query"""
+
+    def __init__(self, q, i, owner, data):
+        self.q, self.i, self.owner, self.data, self.pos = q, i, owner, data, 0
+
+
+FN_NAMES = {"nv": "get_terminal_name_version", "fb": "get_fg_bg_colors", "cs": "get_cell_size"}
+# what the virtual terminal answers: (head delivered first, tail = the rest of the DA1 reply)
+REPLIES = {
+    "nv": (b"\x1bP>|FakeTerm(1.0)\x1b\\\x1b[", b"?62;c"),
+    "fb": (b"\x1b]10;rgb:1111/2222/3333\x1b\\\x1b]11;rgb:4444/5555/6666\x1b\\\x1b[", b"?62;c"),
+    "cs": (b"\x1b[6;20;10t\x1b[4;480;800t\x1b[", b"?62;c"),
+}
+
+
+def classify(data: bytes):
+    if b"\x1b[>q" in data:
+        return "nv"
+    if b"\x1b]10;?" in data:
+        return "fb"
+    if b"\x1b[16t" in data:
+        return "cs"
+    return None
+
+
 class Sched:
-    def __init__(self, procs, flav):
+    def __init__(self, procs, flav, real=False, progs=None):
         self.done = Signal()
         self.flav = flav
+        self.real = real
         self.vprocs = {}
         self.depth = {}
         self.viol = []
         self.nextq = 0
-        self.pend, self.repl = [], []
+        self.pend, self.repl = [], []   # undelivered / delivered reply parts (Chunk), FIFO
+        self.outq = {}                  # tid -> [query, parts not yet read]
+        self.expected = EXPECTED if real else {}
         TRACED.clear()
-        self.vprocs[0] = VProc(self, 0)
+        self.vprocs[0] = VProc(self, 0, fake_tty=real)
         self.threads = [Th(self, t, p) for t, p in enumerate(procs)]
         for th in self.threads:
             self.depth[th.tid] = 0
+            if progs:
+                pr = progs[th.tid] if th.tid < len(progs) else "-"
+                th.prog = [f for f in pr.split("+") if f in FN_NAMES]
+
+    # -- the virtual FIFO terminal ------------------------------------------------------
+    def term_write(self, th, data):
+        q = self.nextq
+        self.nextq += 1
+        if data is None:
+            head, tail = b"h", b"t"
+        else:
+            kind = classify(data)
+            if kind is None:
+                self.viol.append(f"harness: unknown request {data!r}")
+                head, tail = b"?", b"?"
+            else:
+                head, tail = REPLIES[kind]
+        self.pend += [Chunk(q, 0, th.tid, head), Chunk(q, 1, th.tid, tail)]
+        self.outq[th.tid] = [q, 2]
+        return q
+
+    def term_take(self, th, c):
+        """thread `th` starts consuming reply part `c`; returns the event"""
+        mine = self.outq.get(th.tid)
+        if c.owner != th.tid:
+            self.viol.append(f"reply: thread {th.tid} read part {c.i} of the reply to query {c.q}, which thread "
+                             f"{c.owner} asked (its own query: {mine[0] if mine else 'none'})")
+        ev = f"rd:{mine[0] if mine else '-'}:{c.q}.{c.i}"
+        if mine:
+            mine[1] -= 1
+            if mine[1] <= 0:
+                del self.outq[th.tid]
+        return ev
+
+    def flush_input(self, th):
+        if self.repl:
+            lost = [(c.q, c.i, c.owner) for c in self.repl]
+            self.viol.append(f"lost: thread {th.tid} starts a query and discards unread reply parts "
+                             f"(query, part, asker) = {lost}")
+            for c in self.repl:
+                o = self.outq.get(c.owner)
+                if o:
+                    o[1] -= 1
+                    if o[1] <= 0:
+                        del self.outq[c.owner]
+            self.repl.clear()
+
+    def respond(self):
+        if not self.pend:
+            return "x"
+        c = self.pend.pop(0)
+        self.repl.append(c)
+        return f"rsp:{c.q}.{c.i}"
 
     def wait(self):
         if not self.done.acquire(timeout=STEP_TIMEOUT):
             raise Hang()
 
-    def run(self, steps):
-        evs = []
-        try:
-            for th in self.threads:
-                th.start()
-                self.wait()
-            for st in steps:
-                if st[0] == "r":
-                    if self.pend:
-                        q = self.pend.pop(0)
-                        self.repl.append(q)
-                        evs.append(f"rsp:{q}")
-                    else:
-                        evs.append("x")
-                    continue
-                t = st[1]
-                if t >= len(self.threads):
-                    evs.append("x")
-                    continue
-                th = self.threads[t]
-                if th.error:
-                    evs.append("dead")
-                    continue
-                th.cmd = {"c": ("call",), "a": ("adv",), "n": ("noq",), "s": ("start", st[2] if len(st) > 2 else 0)}[st[0]]
-                th.sem.release()
-                self.wait()
-                evs.append(th.event)
+    def command(self, st):
+        if st[0] == "r":
+            return self.respond()
+        t = st[1]
+        if t >= len(self.threads):
+            return "x"
+        th = self.threads[t]
+        if th.error:
+            return "dead"
+        th.cmd = {"c": ("call",), "a": ("adv",), "w": ("wr",), "d": ("rd",),
+                  "s": ("start", st[2] if len(st) > 2 else 0)}[st[0]]
+        th.sem.release()
+        self.wait()
+        return th.event
+
+    def summary(self):
+        if self.real:
+            ins = [str(th.tid) for th in self.threads if len(th.stack) >= 2]
+        else:
             ins = [str(t) for t in sorted(self.depth) if self.depth[t] > 0]
-            curs = [f"{p}:{lock_name(self.vprocs[p].mod._tty_lock)}" for p in sorted(self.vprocs)]
-            summary = f"inside={','.join(ins) if ins else '-'} cur={','.join(curs)}"
-            if len(ins) > 1:
-                self.viol.append(f"overlap: threads {ins} are inside synchronized functions at the same time")
+        curs = [f"{p}:{lock_name(self.vprocs[p].mod._tty_lock)}" for p in sorted(self.vprocs)]
+        outs = [f"{t}:{o[0]}.{o[1]}" for t, o in sorted(self.outq.items())]
+        unread = len(self.repl) + len(self.pend)
+        if len(ins) > 1:
+            self.viol.append(f"overlap: threads {ins} are inside synchronized sections at the same time")
+        if all(th.accepts == ("call", "start") and not th.stack for th in self.threads) and unread:
+            left = [(c.q, c.i, c.owner) for c in self.repl + self.pend]
+            self.viol.append(f"unread: every thread is idle and reply parts (query, part, asker) = {left} "
+                             f"were never read")
+        return (f"inside={','.join(ins) if ins else '-'} cur={','.join(curs)} "
+                f"out={','.join(outs) if outs else '-'} unread={unread}")
+
+    def shutdown(self):
+        for th in self.threads:
+            th.aborting = True
+            th.sem.release()
+        for th in self.threads:
+            if th.ident is not None:
+                th.join(timeout=5)
+
+    def start_threads(self):
+        for th in self.threads:
+            th.start()
+            self.wait()
+
+    def run(self, steps, follow=False):
+        """`follow` (real query functions only): the schedule fixes WHO moves; if the recorded action
+        letter does not fit what the thread is parked at (the schedule was recorded on another
+        version of the code) the action the thread can take is used instead"""
+        evs = []
+        self.used = []
+        summary = ""
+        try:
+            self.start_threads()
+            for st in steps:
+                if follow and st[0] != "r" and st[1] < len(self.threads):
+                    th = self.threads[st[1]]
+                    acc = th.accepts
+                    if acc == ("call", "start"):
+                        st = ["c", st[1]]
+                    elif acc:
+                        st = [{"call": "c", "adv": "a", "wr": "w", "rd": "d"}[acc[0]], st[1]]
+                self.used.append("r" if st[0] == "r" else f"{st[0]}{st[1]}")
+                evs.append(self.command(st))
+            summary = self.summary()
         finally:
-            for th in self.threads:
-                th.aborting = True
-                th.sem.release()
-            for th in self.threads:
-                if th.ident is not None:
-                    th.join(timeout=5)
+            self.shutdown()
         errs = [f"thread {th.tid}: {th.error}" for th in self.threads if th.error]
         return "ok " + "|".join(evs) + " # " + summary, self.viol, errs
+
+    # -- online generation of a schedule for the real query functions ------------------
+    def options(self):
+        """(token, step, blocked) of the step each thread can be given now"""
+        out = []
+        for th in self.threads:
+            if th.error:
+                continue
+            acc = th.accepts
+            if acc == ("call", "start"):
+                if th.prog:
+                    out.append((f"c{th.tid}", ["c", th.tid], False))
+                continue
+            a = acc[0]
+            letter = {"call": "c", "adv": "a", "wr": "w", "rd": "d"}[a]
+            blocked = False
+            if th.wait_lock is not None and th.wait_lock.owner not in (None, th.tid):
+                blocked = True
+            if a == "rd" and not self.repl:
+                blocked = True
+            out.append((f"{letter}{th.tid}", [letter, th.tid], blocked))
+        return out
+
+    def generate(self, rng, maxsteps):
+        toks, evs = [], []
+        summary = ""
+        stick = rng.choice([0.3, 0.6, 0.85, 0.95])
+        p_rsp = rng.choice([0.15, 0.4, 0.8])
+        p_bad = rng.choice([0.0, 0.03, 0.1])
+        last = None
+        try:
+            self.start_threads()
+            for _ in range(maxsteps):
+                opts = self.options()
+                free = [o for o in opts if not o[2]]
+                stuck = [o for o in opts if o[2]]
+                if not opts and not self.pend:
+                    break
+                waiting = any(o[0][0] == "d" and o[2] for o in opts)
+                if self.pend and (not free or rng.random() < (p_rsp if waiting else 0.05)):
+                    toks.append("r")
+                    evs.append(self.command(["r"]))
+                    continue
+                if stuck and rng.random() < p_bad:
+                    o = rng.choice(stuck)
+                elif free:
+                    same = [o for o in free if o[1][1] == last]
+                    o = same[0] if same and rng.random() < stick else rng.choice(free)
+                else:
+                    break
+                last = o[1][1]
+                toks.append(o[0])
+                evs.append(self.command(o[1]))
+            summary = self.summary()
+        finally:
+            self.shutdown()
+        errs = [f"thread {th.tid}: {th.error}" for th in self.threads if th.error]
+        return toks, "ok " + "|".join(evs) + " # " + summary, self.viol, errs
+
+
+EXPECTED: dict = {}
+
+
+def compute_expected():
+    """what each query function returns when it runs alone on the virtual terminal"""
+    import random as _r
+    for name in FN_NAMES:
+        sch = Sched([0], {}, real=True, progs=[name])
+        sch.expected = {}
+        sch.generate(_r.Random(0), 400)
+        th = sch.threads[0]
+        if th.results:
+            EXPECTED[name] = th.results[0][1]
 
 
 # ------------------------------------------------------------------------------------------
@@ -650,6 +973,21 @@ def main():
                 sch = Sched(req["procs"], req.get("flav", {}))
                 res, viol, errs = sch.run(req["steps"])
                 resp = {"res": res, "viol": viol, "errs": errs}
+            elif req["op"] == "fsched":
+                if not EXPECTED:
+                    compute_expected()
+                sch = Sched(req["procs"], {}, real=True, progs=req["progs"])
+                res, viol, errs = sch.run(req["steps"], follow=True)
+                resp = {"res": res, "viol": viol, "errs": errs, "used": sch.used}
+            elif req["op"] == "fgen":
+                import random as _r
+                if not EXPECTED:
+                    compute_expected()
+                sch = Sched(req["procs"], {}, real=True, progs=req["progs"])
+                toks, res, viol, errs = sch.generate(_r.Random(req["seed"]), req.get("maxsteps", 400))
+                resp = {"steps": toks, "res": res, "viol": viol, "errs": errs, "expected": EXPECTED}
+            elif req["op"] == "noop":
+                resp = {}
             else:
                 resp = {"error": "bad op"}
         except Hang:
